@@ -90,7 +90,17 @@ func c02GenText(r *rand.Rand) string {
 		}
 		lines = append(lines, "route add big big.test/ http://10.99.0.1:80/ weight "+choose(r, []string{"0.3", "1e-9", "0.99999", "5"}))
 	}
+	if r.Intn(300) == 0 {
+		// one very long line (longer than a line scanner's default 64 KiB token limit)
+		n := choose(r, []int{60000, 65530, 65536, 70000, 200000})
+		lines = append(lines, choose(r, []string{
+			"# " + strings.Repeat("c", n),
+			"route add " + strings.Repeat("s", n) + " long.test/ http://10.0.0.1:80/",
+			"route add svc long.test/ http://10.0.0.1:80/ tags \"" + strings.Repeat("t,", n/2) + "x\"",
+		}))
+	}
 	text := strings.Join(lines, choose(r, []string{"\n", "\n", "\n", "\r\n", "\n\n"}))
+	sentinel := r.Intn(4) > 0
 	// byte mutations
 	if r.Intn(3) == 0 && len(text) > 0 && len(text) < 4000 {
 		b := []byte(text)
@@ -114,8 +124,13 @@ func c02GenText(r *rand.Rand) string {
 		}
 		text = string(b)
 	}
+	if sentinel {
+		text += c02Sentinel
+	}
 	return text
 }
+
+const c02Sentinel = "\nroute add sentinel sentinel.test/ http://10.9.9.9:80/"
 
 var reFabioFrame = regexp.MustCompile(`github\.com/fabiolb/fabio/([\w/\.\(\)\*]+?)\(`)
 
@@ -223,6 +238,14 @@ func c02Crash(c *ctx) {
 			var err error
 			if !guarded(c, "NewTable", in, func() { t, err = newTable(text) }) {
 				return
+			}
+			if err == nil && strings.HasSuffix(text, c02Sentinel) {
+				// an accepted text is applied completely: its last command must be in the table
+				if rs := t["sentinel.test"]; len(rs) == 0 {
+					c.R.Violate("c02c:accepted-text-truncated", fmt.Sprintf("NewTable accepted a %d byte text but the route of its last line is missing (silently truncated configuration)", len(text)), in)
+					return
+				}
+				c.R.Count("sentinel_checked", 1)
 			}
 			if err != nil {
 				c.R.Count("rejected", 1)
